@@ -29,6 +29,15 @@ def run_job(pid, hname, tier, wall_limit):
                     'paths': 0, 'total_wall_s': round(time.time() - t0, 1)}
         lines = [ln for ln in p.stdout.strip().splitlines() if ln.startswith('{')]
         if p.returncode == 0 and lines:
+            if attempt == 1 and pid != '_selfcheck':
+                r = json.loads(lines[-1])
+                undecided = [m for m in r.get('inconclusive', []) if 'undecided by all back ends' in m or 'UnknownSatisfiability' in m]
+                if r.get('verdict') == 'INCONCLUSIVE' and undecided and not r.get('failures') and not r.get('nonrepro'):
+                    # a solver gave up within its time limit (loaded host): once more with three times the solver timeouts.
+                    # Only an undecided obligation is retried; a refutation or a non-reproducing counterexample is final.
+                    env['VERIF_PROVE_SCALE'] = '3'
+                    wall_limit = wall_limit * 2
+                    continue
             break
         # a worker that died without a verdict (infrastructure failure, not a verdict) is started once more; a second
         # failure is reported as a harness error
